@@ -4,6 +4,7 @@ use std::{
     ffi::OsStr,
     ops::Add,
     path::{Path, PathBuf},
+    sync::OnceLock,
 };
 /// Builder object for specifying the name and path of the log output file.
 ///
@@ -49,6 +50,8 @@ pub struct FileSpec {
     pub(crate) basename: String,
     pub(crate) o_discriminant: Option<String>,
     timestamp_cfg: TimestampCfg,
+    // the start time in the file names, determined once, when it is needed for the first time
+    timestamp: OnceLock<Option<String>>,
     o_suffix: Option<String>,
     pub(crate) use_utc: bool,
 }
@@ -62,6 +65,7 @@ impl Default for FileSpec {
             basename: Self::default_basename(),
             o_discriminant: None,
             timestamp_cfg: TimestampCfg::Default,
+            timestamp: OnceLock::new(),
             o_suffix: Some(String::from("log")),
             use_utc: false,
         }
@@ -110,6 +114,7 @@ impl FileSpec {
                 o_discriminant: None,
                 o_suffix: p.extension().map(|s| s.to_string_lossy().to_string()),
                 timestamp_cfg: TimestampCfg::No,
+                timestamp: OnceLock::new(),
                 use_utc: false,
             })
         }
@@ -208,6 +213,7 @@ impl FileSpec {
         } else {
             TimestampCfg::No
         };
+        self.timestamp = OnceLock::new();
         self
     }
 
@@ -235,6 +241,7 @@ impl FileSpec {
             } else {
                 TimestampCfg::No
             };
+            self.timestamp = OnceLock::new();
         }
     }
 
@@ -256,7 +263,11 @@ impl FileSpec {
             append_underscore_if_not_empty(&mut fixed_name_part);
             fixed_name_part.push_str(discriminant);
         }
-        if let Some(timestamp) = &self.timestamp_cfg.get_timestamp() {
+        // (all files of a program run carry the same start time)
+        if let Some(timestamp) = self
+            .timestamp
+            .get_or_init(|| self.timestamp_cfg.get_timestamp())
+        {
             append_underscore_if_not_empty(&mut fixed_name_part);
             fixed_name_part.push_str(timestamp);
         }
